@@ -26,7 +26,7 @@ func init() {
 				Rule: "case = (Left, Right, n). Exhaustive: every pair of line sequences over alphabet 2 x length <= 8, alphabet 3 x length <= 5 and alphabet 4 x length <= 4 (alphabet 2 x length <= 9, alphabet 3 x length <= 6 in thorough), each with every context size n in 0..5 (so n exceeds every gap for short inputs); random repetitive inputs of up to 60 lines with n in 0..8; context sizes 1000, 2^31, 2^40, MaxInt-1 and MaxInt; inputs that are windows of one shared backing array; very large inputs (4100..11700 lines a side, 16400 and 23200 in thorough: length products past 2^24..2^29) whose seam repeats (one of two adjacent identical blocks removed or added), with the middle replaced, with nothing in common at the ends, and with scattered edits; the F4 witnesses as regression cases. " +
 					"In about half of the cases the diff is rendered (Diff.Format with all three formatters) between the stages, before the stage is checked. At each of the three stages every chunk's edits are interpreted against Left[LStart,LEnd) and Right[RStart,REnd); leading/trailing context <= n; after New and after Unify chunks ascending and disjoint (after Unify also not adjacent) and replacing each left range by the chunk's output yields Right; Edits deep-equals its value after New and is itself a correct script; Left/Right are not modified. " +
 					"distinct = enumerated (Left, Right, n) triples, random ones by hash; non-trivial = New produced >= 2 chunks and n >= 1 (context of neighbouring chunks can interact)",
-				Required:     []string{"triples", "multi_chunk_triples", "merged_by_unify", "n_exceeds_gap", "f4_witnesses", "aliased_input_triples", "huge_n_triples", "very_large_input_triples", "formats_between_stages"},
+				Required:     []string{"triples", "multi_chunk_triples", "merged_by_unify", "n_exceeds_gap", "f4_witnesses", "aliased_input_triples", "huge_n_triples", "very_large_input_triples", "formats_between_stages", "unify_on_rebuilt_chunks"},
 				Exhaustive:   true,
 				Assumptions:  []string{"chunk interpreter written from the Chunk field documentation (1-based half-open ranges)"},
 				CoverPkgs:    []string{"github.com/creachadair/mds/mdiff"},
@@ -156,6 +156,28 @@ func c13check(c *fw.Ctx, left, right []string, n int) (nchunks int, merged, exce
 		if !equalEdits(d.Edits, edits0) {
 			fail("Edits was disturbed: %v, was %v", d.Edits, edits0)
 			return
+		}
+		if (len(left)+3*len(right)+n)%4 == 1 {
+			// the chunks are rebuilt from their exported fields (a deep copy through
+			// struct literals, as a caller who wants to keep the originals would make)
+			// and unified with UnifyChunks; the result must satisfy the same clauses
+			stage = fmt.Sprintf("AddContext(%d), then UnifyChunks on chunks rebuilt from their exported fields", n)
+			cp := make([]*mdiff.Chunk, len(d.Chunks))
+			for i, ch := range d.Chunks {
+				es := make([]mdiff.Edit, len(ch.Edits))
+				for j, e := range ch.Edits {
+					es[j] = mdiff.Edit{Op: e.Op, X: append([]string(nil), e.X...), Y: append([]string(nil), e.Y...)}
+				}
+				cp[i] = &mdiff.Chunk{Edits: es, LStart: ch.LStart, LEnd: ch.LEnd, RStart: ch.RStart, REnd: ch.REnd}
+			}
+			keepChunks := d.Chunks
+			d.Chunks = mdiff.UnifyChunks(cp)
+			c.Add("unify_on_rebuilt_chunks", 1)
+			okc := checkChunks(n, true, true)
+			d.Chunks = keepChunks
+			if !okc {
+				return
+			}
 		}
 		stage = fmt.Sprintf("AddContext(%d).Unify()", n)
 		if got := d.Unify(); got != d {
